@@ -246,20 +246,20 @@ func (s *Sim) recvFunc(ep int) func(ctx context.Context) ([]byte, error) {
 // ---- scenario ----------------------------------------------------------------
 
 type GbnScenario struct {
-	Name       string          `json:"name"`
-	N          uint8           `json:"n"`
-	MaxChunk   int             `json:"max_chunk"`
-	Msgs       [2][]int        `json:"msgs"` // payload sizes, client->server and server->client
-	Faults     [2][]Fault      `json:"faults"`
-	RandFault  *RandFault      `json:"rand_fault,omitempty"`
-	Latency    time.Duration   `json:"latency"`
+	Name       string           `json:"name"`
+	N          uint8            `json:"n"`
+	MaxChunk   int              `json:"max_chunk"`
+	Msgs       [2][]int         `json:"msgs"` // payload sizes, client->server and server->client
+	Faults     [2][]Fault       `json:"faults"`
+	RandFault  *RandFault       `json:"rand_fault,omitempty"`
+	Latency    time.Duration    `json:"latency"`
 	SendGap    [2]time.Duration `json:"send_gap"`
-	Static     time.Duration   `json:"static_timeout"` // 0 = adaptive
-	Ping, Pong time.Duration   `json:"-"`
-	PingNs     int64           `json:"ping"`
-	PongNs     int64           `json:"pong"`
-	RunFor     time.Duration   `json:"run_for"` // virtual time budget after handshake
-	Seed       int64           `json:"seed"`
+	Static     time.Duration    `json:"static_timeout"` // 0 = adaptive
+	Ping, Pong time.Duration    `json:"-"`
+	PingNs     int64            `json:"ping"`
+	PongNs     int64            `json:"pong"`
+	RunFor     time.Duration    `json:"run_for"` // virtual time budget after handshake
+	Seed       int64            `json:"seed"`
 }
 
 type RandFault struct {
